@@ -320,10 +320,16 @@ def _check_rows(model, table, ph, rows, ta, tol, enabled, out, stats):
                 loss_sum += L
                 cons_tol += ptol
         # ---------- domain cell (C07)
-        if "C07" in E and multi_src and table.has_domain:
+        mux_ = model.mux()
+        c05_dom = "C05" in E and mux_ is not None and (n == mux_ or mux_ in model.ancestors(n))
+        if ("C07" in E or c05_dom) and multi_src and table.has_domain:
             d = true_domain(model, rows, n)
             cell = r.get("Domain")
-            if d is None:
+            if c05_dom and "C07" not in E:
+                if d is not None and cell != d:
+                    out.append(("C05", "mux-domain-is-selected-inputs-source", "phase %r %s: Domain %r, powered by %r through the selected input" % (ph, n, cell, d)))
+                    return
+            elif d is None:
                 if cell not in [a for a in model.ancestors(n) + [n] if model.kind(a) == "Source"]:
                     out.append(("C07", "domain-cell", "phase %r %s: Domain %r is no ancestor source" % (ph, n, cell)))
                     return
